@@ -296,7 +296,13 @@ def borrow(tier, seed):
                     what = "nested accesses observed other values than the model: expected %s, observed %s" % (exp, o["obs"])
             elif not all(o["free"]) or not o["clone_ok"]:
                 what = "a column is still borrowed after the accesses ended (free=%s clone_ok=%s)" % (o["free"], o["clone_ok"])
-            if o.get("leaked", 0) or o.get("zleaked", 0) or o.get("anomalies", 0):
+            # a panic that unwinds out of a component's Clone::clone in the middle of clone() (script
+            # with clone as OUTER access and a refused inner access) may leak what was cloned so far --
+            # the same allowance the contract makes for injected Clone faults; anomalies stay forbidden
+            mid_clone_panic = any(e[0] == "enter" and e[1]["k"] == "cb" for e in h) and any(e[0] == "enter" and e[2] == "panic" for e in h)
+            if (o.get("leaked", 0) or o.get("zleaked", 0)) and mid_clone_panic and not o.get("anomalies", 0):
+                pass
+            elif o.get("leaked", 0) or o.get("zleaked", 0) or o.get("anomalies", 0):
                 violations.append({"tags": ["C04", "C10"], "what": "component values leaked or mis-dropped around runtime-borrowed accesses (a refused clone must not leave clones behind): leaked=%s zero-sized=%s anomalies=%s" % (o.get("leaked"), o.get("zleaked"), o.get("anomalies")),
                                    "at": i, "event": {"script": _nest_sexpr(h), "observed": o}, "origin": {"engine": "borrow", "cfg": cfgname, "depth": depth}})
             if what:
